@@ -142,62 +142,108 @@ func allSmallConsts(ph *ssa.Phi) bool {
 	return true
 }
 
-// ruleA18Prefix: (threshold, byte count, minor) table of appendCborTypePrefix and big-endian emission.
+// ruleA18Prefix: (range of the argument, byte count, minor) table of appendCborTypePrefix and
+// big-endian emission, read off the function path by path: every feasible path to a return is
+// walked with the finite-domain evaluator (loop counters and shift amounts are concrete on a path),
+// the bytes it appends are collected in order — a head byte major|minor, then byte(number >> s) —
+// and the conditions on `number` along the path give the range the row applies to. The source may
+// be a loop over a per-width count or one multi-byte append per width: the table is the same.
 func ruleA18Prefix(r *Run, p *Prog, f *ssa.Function) {
 	f = p.View(f, "", nil)
-	number := f.Params[2]
-	var hdr *ssa.Call
-	var minorPhi *ssa.Phi
-	eachInstr(f, func(b *ssa.BasicBlock, i int, in ssa.Instruction) {
-		c, ok := in.(*ssa.Call)
-		if !ok || builtinName(&c.Call) != "append" {
-			return
-		}
-		if el, ok := singleAppend(c); ok {
-			if or, ok := el.(*ssa.BinOp); ok && or.Op == token.OR && isParam(or.X, f, 1) {
-				if ph, ok := or.Y.(*ssa.Phi); ok {
-					hdr, minorPhi = c, ph
-				}
-			}
-		}
-	})
-	if hdr == nil {
-		r.Ob("A18", FnName(f)+"/header", p.Pos(f.Pos()), false, true, "header byte major|minor with a per-width minor not found")
+	if len(f.Params) < 3 {
+		r.Ob("A18", FnName(f)+"/header", p.Pos(f.Pos()), false, true, "unexpected signature of the argument writer")
 		return
 	}
-	// the byteCount phi in the same block
-	var cntPhi *ssa.Phi
-	for _, in := range minorPhi.Block().Instrs {
-		if ph, ok := in.(*ssa.Phi); ok && ph != minorPhi && isIntLike(ph.Type()) {
-			cntPhi = ph
-		}
-	}
-	if cntPhi == nil {
-		r.Ob("A18", FnName(f)+"/count", p.Pos(f.Pos()), false, true, "byte-count variable not found next to the minor")
+	major, number := f.Params[1], f.Params[2]
+	paths, complete := enumPaths(f, 10, 50000)
+	if !complete {
+		r.Fail("A18", FnName(f)+"/paths", p.Pos(f.Pos()), "cannot enumerate the paths of the argument writer")
 		return
 	}
 	type row struct{ lo, hi, cnt, minor int64 }
-	want := []row{{0, 256, 1, 24}, {256, 65536, 2, 25}, {65536, 4294967296, 4, 26}, {4294967296, -1, 8, 27}}
-	var got []row
-	for k, e := range minorPhi.Edges {
-		m, ok1 := constInt(e)
-		cn, ok2 := constInt(cntPhi.Edges[k])
-		if !ok1 || !ok2 {
+	rows := map[row]bool{}
+	hdrOK, beOK := true, true
+	whyHdr, whyBE := "", ""
+	nRet := 0
+	var hdrPos token.Pos
+	for _, pa := range paths {
+		if _, isRet := pa.Exit.(*ssa.Return); !isRet {
 			continue
 		}
-		pred := minorPhi.Block().Preds[k]
-		cs := necessaryCmps(f, pred.Instrs[len(pred.Instrs)-1])
-		rw := row{0, -1, cn, m}
-		for _, c := range cs {
-			if !isParam(c.X, f, 2) {
+		type emitted struct {
+			isHead bool
+			minor  int64
+			shift  int64
+			bad    string
+		}
+		var out []emitted
+		feasible := pa.WalkEval(func(bi int, in ssa.Instruction, e *miniEnv) {
+			c, ok := in.(*ssa.Call)
+			if !ok || builtinName(&c.Call) != "append" {
+				return
+			}
+			spread, elems := appendElems(c)
+			if spread != nil {
+				out = append(out, emitted{bad: "appends " + descr(spread) + "..."})
+				return
+			}
+			for _, el := range elems {
+				if el == nil {
+					out = append(out, emitted{bad: "an element that is not set"})
+					continue
+				}
+				el = pa.ResolveAt(el, bi)
+				if or, ok := el.(*ssa.BinOp); ok && or.Op == token.OR {
+					x, y := pa.ResolveAt(or.X, bi), pa.ResolveAt(or.Y, bi)
+					if y == ssa.Value(major) {
+						x, y = y, x
+					}
+					if x == ssa.Value(major) {
+						if m, ok := e.eval(y, 0); ok {
+							if hdrPos == token.NoPos {
+								hdrPos = c.Pos()
+							}
+							out = append(out, emitted{isHead: true, minor: m})
+							continue
+						}
+					}
+					out = append(out, emitted{bad: "head byte " + descr(el)})
+					continue
+				}
+				cv, ok := el.(*ssa.Convert)
+				if !ok {
+					out = append(out, emitted{bad: descr(el)})
+					continue
+				}
+				src := pa.ResolveAt(cv.X, bi)
+				if src == ssa.Value(number) {
+					out = append(out, emitted{shift: 0})
+					continue
+				}
+				if sh, ok := src.(*ssa.BinOp); ok && sh.Op == token.SHR && pa.ResolveAt(sh.X, bi) == ssa.Value(number) {
+					if k, ok := e.eval(sh.Y, 0); ok {
+						out = append(out, emitted{shift: k})
+						continue
+					}
+				}
+				out = append(out, emitted{bad: descr(el)})
+			}
+		})
+		if !feasible {
+			continue
+		}
+		nRet++
+		// range of `number` on this path
+		rw := row{0, -1, 0, -1}
+		for _, c := range pa.Cmps() {
+			if pa.Resolve(c.X) != ssa.Value(number) {
 				continue
 			}
 			n, ok := constInt(c.Y)
 			if !ok {
 				if cc, isC := c.Y.(*ssa.Const); isC && cc.Value != nil {
 					if u, exact := constantUint64(cc); exact {
-						n = int64(u)
-						ok = true
+						n, ok = int64(u), true
 					}
 				}
 			}
@@ -209,93 +255,73 @@ func ruleA18Prefix(r *Run, p *Prog, f *ssa.Function) {
 				if rw.hi < 0 || n < rw.hi {
 					rw.hi = n
 				}
+			case token.LEQ:
+				if rw.hi < 0 || n+1 < rw.hi {
+					rw.hi = n + 1
+				}
 			case token.GEQ:
 				if n > rw.lo {
 					rw.lo = n
 				}
+			case token.GTR:
+				if n+1 > rw.lo {
+					rw.lo = n + 1
+				}
 			}
 		}
+		if len(out) == 0 || !out[0].isHead {
+			hdrOK = false
+			whyHdr = "a path returns without first appending the head byte major|minor"
+			continue
+		}
+		rw.minor = out[0].minor
+		rw.cnt = int64(len(out) - 1)
+		for k, em := range out[1:] {
+			want := 8 * (rw.cnt - 1 - int64(k))
+			if em.bad != "" || em.isHead || em.shift != want {
+				beOK = false
+				if em.bad != "" {
+					whyBE = "after the head byte the path appends " + em.bad
+				} else {
+					whyBE = fmt.Sprintf("byte %d of %d is number>>%d, expected number>>%d", k+1, rw.cnt, em.shift, want)
+				}
+			}
+		}
+		rows[rw] = true
+	}
+	if nRet == 0 {
+		hdrOK, whyHdr = false, "no feasible path to a return"
+	}
+	pos := p.Pos(f.Pos())
+	if hdrPos != token.NoPos {
+		pos = p.Pos(hdrPos)
+	}
+	r.Ob("A18", FnName(f)+"/header", pos, hdrOK, true, tern(hdrOK, "every path starts with the head byte major|minor, minor a constant per width", "header byte major|minor with a per-width minor not found: "+whyHdr))
+	if !hdrOK {
+		return
+	}
+	want := []row{{0, 256, 1, 24}, {256, 65536, 2, 25}, {65536, 4294967296, 4, 26}, {4294967296, -1, 8, 27}}
+	var got []row
+	for rw := range rows {
 		got = append(got, rw)
 	}
-	sort.Slice(got, func(i, j int) bool { return got[i].minor < got[j].minor })
+	sort.Slice(got, func(i, j int) bool {
+		if got[i].minor != got[j].minor {
+			return got[i].minor < got[j].minor
+		}
+		if got[i].lo != got[j].lo {
+			return got[i].lo < got[j].lo
+		}
+		return got[i].cnt < got[j].cnt
+	})
 	okc := len(got) == len(want)
 	for i := range want {
 		if i >= len(got) || got[i] != want[i] {
 			okc = false
 		}
 	}
-	r.Ob("A18", FnName(f)+"/width-table", p.Pos(hdr.Pos()), okc, true, tern(okc, "argument widths: <2^8→1 byte/minor 24, <2^16→2/25, <2^32→4/26, else 8/27 (RFC 8949 §3)", fmt.Sprintf("the (range, byte count, minor) table of appendCborTypePrefix is %v, expected %v: some lengths/values get a header whose width does not match", got, want)))
-	// big-endian emission: byte(number >> (uint(k)*8)) for k = count-1 … 0
-	okEmit := false
-	eachInstr(f, func(b *ssa.BasicBlock, i int, in ssa.Instruction) {
-		c, ok := in.(*ssa.Call)
-		if !ok || builtinName(&c.Call) != "append" {
-			return
-		}
-		el, ok := singleAppend(c)
-		if !ok {
-			return
-		}
-		cv, ok := el.(*ssa.Convert)
-		if !ok {
-			return
-		}
-		sh, ok := cv.X.(*ssa.BinOp)
-		if !ok || sh.Op != token.SHR || sh.X != ssa.Value(number) {
-			return
-		}
-		mul, ok := sh.Y.(*ssa.BinOp)
-		if !ok || mul.Op != token.MUL {
-			return
-		}
-		if eight, ok := constInt(mul.Y); !ok || eight != 8 {
-			return
-		}
-		k := mul.X
-		if kc, ok := k.(*ssa.Convert); ok {
-			k = kc.X
-		}
-		// counting up instead of down: the shift index is count - w (w = 1 … count) or
-		// count - 1 - w (w = 0 … count-1)
-		if upOK := bigEndianCountingUp(k, cntPhi); upOK {
-			okEmit = true
-			return
-		}
-		kph, ok := k.(*ssa.Phi)
-		if !ok || !isLoopHeader(kph.Block()) {
-			return
-		}
-		// k starts at count-1 and steps by -1 while k >= 0
-		start, step, cond := false, false, false
-		for idx, e := range kph.Edges {
-			bo, isB := e.(*ssa.BinOp)
-			if !isB || bo.Op != token.SUB {
-				continue
-			}
-			one, isOne := constInt(bo.Y)
-			if !isOne || one != 1 {
-				continue
-			}
-			if kph.Block().Dominates(kph.Block().Preds[idx]) {
-				if bo.X == ssa.Value(kph) {
-					step = true
-				}
-			} else if bo.X == ssa.Value(cntPhi) {
-				start = true
-			}
-		}
-		if ifi, ok := kph.Block().Instrs[len(kph.Block().Instrs)-1].(*ssa.If); ok {
-			if cb, ok := ifi.Cond.(*ssa.BinOp); ok && cb.Op == token.GEQ && cb.X == ssa.Value(kph) {
-				if z, ok := constInt(cb.Y); ok && z == 0 {
-					cond = true
-				}
-			}
-		}
-		if start && step && cond {
-			okEmit = true
-		}
-	})
-	r.Ob("A18", FnName(f)+"/big-endian", p.Pos(f.Pos()), okEmit, true, tern(okEmit, "argument bytes emitted most significant first: byte(number >> 8k) for k = count-1 … 0", "the argument bytes are not emitted as count bytes, most significant first"))
+	r.Ob("A18", FnName(f)+"/width-table", pos, okc, true, tern(okc, "argument widths: <2^8→1 byte/minor 24, <2^16→2/25, <2^32→4/26, else 8/27 (RFC 8949 §3)", fmt.Sprintf("the (range, byte count, minor) table of appendCborTypePrefix is %v, expected %v: some lengths/values get a header whose width does not match", got, want)))
+	r.Ob("A18", FnName(f)+"/big-endian", p.Pos(f.Pos()), beOK, true, tern(beOK, "argument bytes emitted most significant first: byte(number >> 8k) for k = count-1 … 0", "the argument bytes are not emitted as count bytes, most significant first: "+whyBE))
 }
 
 func constantUint64(c *ssa.Const) (uint64, bool) {
